@@ -1464,7 +1464,8 @@ func allParked3() bool {
 // Test functions.
 
 const c18Rule = "static ez config types (flat; nested with aliases; untagged with FileFieldNameEncoder; path computed from two leaves), each with ConfigPath and a recording, content-dependent Verify. " +
-	"Per leaf rapid draws a subset of {default, file, env, flag}; the value of a layer is derived from (leaf seed, layer) so the four are pairwise different. " +
+	"Per leaf rapid draws a subset of {default, file, env, flag}; the value of a layer is derived from (leaf seed, layer) so the four are pairwise different " +
+	"(one leaf in five instead lets its top layer - flag, env or file - repeat exactly the value the defaults struct holds, generated or zero, while a lower non-default layer differs: an explicit value equal to the default must still win; one bool leaf, whose flag is also spelled bare -n / -n=false). " +
 	"Format json/yaml/toml/cue through the typed entry points, the extension-dispatching one and the two decoder-factory ones; the path comes from default/env/flag (lower layers and the file itself name decoy files that exist with other content); " +
 	"file valid / missing / malformed / unknown extension / no path at all; flags through Params.FlagSource on a fresh FlagSet (3 in 4) or a fresh flag.CommandLine + os.Args (restored). " +
 	"Oracle by construction: first View() = flag > env > file > default per leaf; the decoder factory saw the path of defaults+env+flags; every Verify receiver deep-equals a full stack (never the file-less intermediate, none at all when the file cannot be read); " +
